@@ -538,7 +538,7 @@ fn step(cx: &mut Ctx, idx: usize, op: &Op, ob: &Obs) {
         return;
     }
     match (op, ob) {
-        (Op::NewBuilder { b, proto, layer, now_ns }, Obs::NewBuilder { reads, panic }) => {
+        (Op::NewBuilder { b, proto, layer, now_ns, .. }, Obs::NewBuilder { reads, panic }) => {
             cx.j.time(now_ns.0);
             cx.j.trace.push(format!("new_builder:{}:{:?}", proto.name(), layer));
             if *layer == Layer::Batteries {
